@@ -440,6 +440,10 @@ class Request:
         H["_compute_aad"] = lambda S, auth: SObj(None, kind="AAD", who=auth.fields["who"], kind_="cursor")
         H["_compute_call_aad"] = lambda S, auth, method_name=None: SObj(None, kind="AAD", who=auth.fields["who"], kind_="call")  # one method throughout (cross-method: C13)
         H[_time.time] = lambda S: self.now
+        # any other clock (monotonic, perf_counter) has its own arbitrary origin: unrelated to the epoch seconds that
+        # tokens carry in created_at
+        H[_time.monotonic] = lambda S: S.int("monotonic_clock_reading")
+        H[_time.perf_counter] = lambda S: S.int("perf_counter_reading")
 
         def open_cursor(S, token, key, aad, ttl=0):
             S.event("open_cursor", self.run)
@@ -683,6 +687,8 @@ def warmup(S):
         return t
 
     H[_time.time] = clock
+    H[_time.monotonic] = lambda S: S.int("monotonic_clock_reading")  # another clock, another origin
+    H[_time.perf_counter] = lambda S: S.int("perf_counter_reading")
     H[int] = lambda S, x=0: x
     H["_get_auth_and_metadata"] = lambda S: (auth, S.opaque("transport_md", "PyObj"))
     H[uuid.uuid4] = lambda S: SObj(None, kind="UUID", hex=S.str("stream_id"))
@@ -847,6 +853,8 @@ def replay_identity(inputs, ob):
     a1 = native_auth(inputs["shape1"], inputs.get("domain1"), inputs.get("principal1"))
     a2 = native_auth(inputs["shape2"], inputs.get("domain2"), inputs.get("principal2"))
     ident = lambda a: ("anon",) if a is None or not a.authenticated else ("auth", a.domain or "", a.principal or "")  # noqa: E731
+    if not hasattr(st._CallStateCache, "_identity"):
+        return ReplayResult(False, "_CallStateCache._identity is gone")
     k1, k2 = st._CallStateCache._identity(a1), st._CallStateCache._identity(a2)
     bad = ident(a1) == ident(a2) and k1 != k2
     return ReplayResult(bad, f"identities {ident(a1)} / {ident(a2)} -> keys {k1!r} / {k2!r}")
@@ -857,6 +865,8 @@ def identity(S):
     s1, s2 = AUTH_SHAPES[S.choose(len(AUTH_SHAPES))], AUTH_SHAPES[S.choose(len(AUTH_SHAPES))]
     a1, i1 = sym_auth(S, "1", s1)
     a2, i2 = sym_auth(S, "2", s2)
+    if not hasattr(st._CallStateCache, "_identity"):
+        raise Unsupported("_CallStateCache._identity is gone: the cache key is derived some other way (contract view out of date)")
     k1, k2 = S.outcome(st._CallStateCache._identity, a1), S.outcome(st._CallStateCache._identity, a2)
     S.oblige("O6.identity_key_total", k1.returned and k2.returned, kind="raises")
     if not (k1.returned and k2.returned):
